@@ -699,7 +699,14 @@ class Data(Field):
                     if isinstance(self.until_marker, bytes) else
                     b"(?:" + self.until_marker.pattern + b")"
                 )
-                fragments.append(custom_regexp + endswith, is_literal=False)
+                if value.regexp is not None and self.include_delimiter:
+                    # the value itself ends with the delimiter: the regexp
+                    # of the value already has to cover it
+                    fragments.append(custom_regexp, is_literal=False)
+                else:
+                    fragments.append(
+                        custom_regexp + endswith, is_literal=False
+                    )
 
         return fragments
 
